@@ -26,7 +26,7 @@ var all = map[string]*runner.Spec{
 			"stores into heap maps performed inside uninstrumented third-party code would be invisible (none in the current call graph); the map fingerprint would still see a changed value",
 			"the solo reference is the same call run alone on the same frozen classifier with the run-to-block schedule and a frozen clock",
 		},
-		QuickRuns: 2400, ThorRuns: 60000, QuickCap: 420, ThorCap: 2400,
+		QuickRuns: 1800, ThorRuns: 60000, QuickCap: 420, ThorCap: 2400,
 		TestPkgs: []string{"github.com/google/licenseclassifier/v2", "github.com/sergi/go-diff/diffmatchpatch"},
 		Instrument: func(sc *runner.Scratch) error {
 			gd := lite
@@ -43,7 +43,7 @@ var all = map[string]*runner.Spec{
 			"races on memory that does not feed the compared output (for instance the named result errors in the timeout path) are counted as observations, not violations",
 			"process boundary, os.Exit, log.Fatal and stdout are stubbed in-process at main level",
 		},
-		QuickRuns: 2000, ThorRuns: 80000, QuickCap: 420, ThorCap: 2400,
+		QuickRuns: 1600, ThorRuns: 80000, QuickCap: 420, ThorCap: 2400,
 		TestPkgs:     []string{"github.com/google/licenseclassifier/v2"},
 		RealBinaries: map[string]string{"identify_license": "v2|./tools/identify_license"},
 		Instrument: func(sc *runner.Scratch) error {
